@@ -181,6 +181,11 @@ def run(ctx):
             ctx.corr_cases += 1
             if mo.split(" | ")[0] != o["impl"]:
                 ctx.corr_fail(c, f"update order: impl=[{o['impl']}] model=[{mo}]")
+        gp = [(c, o) for c, o in pend if o.get("gline")]
+        gouts = ctx.lean.batch([o["gline"] for _, o in gp]) if gp else []
+        for (c, o), mo in zip(gp, gouts):
+            ctx.corr_cases += 1
+            check_gauge(ctx, c, o, mo)
     finally:
         rec.uninstall()
     # tie of the BUG environment machine (Ptn.C09.Env) to the code: every cache read of a BUG / FixedBUG step with the
@@ -201,6 +206,8 @@ def run_case(ctx, case):
             mo = ctx.lean.batch([o["line"]])[0]
             if mo.split(" | ")[0] != o["impl"]:
                 ctx.corr_fail(case, f"update order: impl=[{o['impl']}] model=[{mo}]")
+            if o.get("gline"):
+                check_gauge(ctx, case, o, ctx.lean.batch([o["gline"]])[0])
     finally:
         rec.uninstall()
 
@@ -312,20 +319,185 @@ def _step(algo, kind, truncate=True):
 
 def _observed_order(algo, kind, order_ids, step_fn):
     """Run one step while recording which node each local evolution acts on, via the orthogonality centre of
-    the state handed to the propagator: we wrap single_site_time_evolution's module-level name."""
+    the state handed to the propagator: we wrap single_site_time_evolution's module-level name.  The same run is
+    observed for the gauge machine (`GaugeObserver`); its events are left in `_observed_order.gauge`."""
     cb = _common_bug_module()
     seen = []
     orig = cb.single_site_time_evolution
+    gobs = GaugeObserver(algo, cb)
 
     def wrapped(node_id, *a, **k):
         seen.append(node_id)
+        gobs.events.append(("evolve", node_id))
         return orig(node_id, *a, **k)
     cb.single_site_time_evolution = wrapped
+    _observed_order.gauge = None
     try:
-        step_fn()
+        with gobs:
+            step_fn()
     finally:
         cb.single_site_time_evolution = orig
+    _observed_order.gauge = gobs
     return seen
+
+
+class GaugeObserver:
+    """Observes, from outside, the events of `root_update` that the gauge machine `Ptn.C09.Gauge` models: centre moves
+    on the working copies (with the QR mode), `pull_tensor_from_different_ttn`, `contract_all_children` on the new
+    state, the QR that yields every new basis tensor (augmented or not) with the node it is stored at and the
+    neighbour its R-leg points to (`split_node_replace`), and the final `replace_tensor` of the root.  Only calls made
+    while `recursive_update` runs are recorded (the truncation pass uses some of the same methods).  The new basis
+    tensors are kept for the validation of the QR contract (isometry toward the parent)."""
+
+    BC = "_basis_change_tensor"
+
+    def __init__(self, algo, cb):
+        self.algo, self.cb = algo, cb
+        self.events, self.bases = [], []
+        self.active = False
+        self.in_pull = False
+        self.qr_kind = None
+
+    def __enter__(self):
+        from pytreenet.core.ttn import TreeTensorNetwork as T
+        from pytreenet.util.tensor_splitting import SplitMode
+        cb, me = self.cb, self
+        self._T = T
+        self._saved_cls = {n: T.__dict__[n] for n in ("move_orthogonalization_center", "contract_all_children",
+                                                     "split_node_replace", "replace_tensor")}
+        self._saved_mod = {n: getattr(cb, n) for n in ("pull_tensor_from_different_ttn", "tensor_qr_decomposition",
+                                                      "compute_fixed_size_new_basis_tensor",
+                                                      "compute_new_basis_tensor")}
+        sc, sm = self._saved_cls, self._saved_mod
+
+        def move(self_, new_center_id, mode=SplitMode.REDUCED):
+            if me.active:
+                me.events.append(("down", self_.orthogonality_center_id, new_center_id, mode == SplitMode.KEEP))
+            return sc["move_orthogonalization_center"](self_, new_center_id, mode=mode)
+
+        def cac(self_, node_id, new_identifier=None):
+            if me.active:
+                me.events.append(("absorb", node_id, tuple(self_.nodes[node_id].children)))
+            return sc["contract_all_children"](self_, node_id, new_identifier=new_identifier)
+
+        def snr(self_, node_id, tensor_a, tensor_b, identifier_a, identifier_b, legs_a, legs_b):
+            if me.active:
+                me.events.append(("basis", node_id, identifier_a, identifier_b, legs_a.parent_leg, me.qr_kind))
+                me.bases.append((node_id, tensor_b, me.qr_kind))
+                me.qr_kind = None
+            return sc["split_node_replace"](self_, node_id, tensor_a, tensor_b, identifier_a, identifier_b,
+                                            legs_a, legs_b)
+
+        def rt(self_, node_id, new_tensor, permutation=None):
+            if me.active and not me.in_pull:
+                me.events.append(("store", node_id))
+            return sc["replace_tensor"](self_, node_id, new_tensor, permutation)
+
+        def pull(old_ttn, new_ttn, node_id, mod_fct=None):
+            if me.active:
+                me.events.append(("pull", node_id))
+            me.in_pull = True
+            try:
+                return sm["pull_tensor_from_different_ttn"](old_ttn, new_ttn, node_id, mod_fct)
+            finally:
+                me.in_pull = False
+
+        def leaf_qr(tensor, q_legs, r_legs, mode=SplitMode.REDUCED):
+            me.qr_kind = "keep" if mode == SplitMode.KEEP else "aug"
+            return sm["tensor_qr_decomposition"](tensor, q_legs, r_legs, mode=mode)
+
+        def fixed_basis(node, updated_tensor):
+            me.qr_kind = "keep"
+            return sm["compute_fixed_size_new_basis_tensor"](node, updated_tensor)
+
+        def aug_basis(node, old_tensor, updated_tensor):
+            me.qr_kind = "aug"
+            return sm["compute_new_basis_tensor"](node, old_tensor, updated_tensor)
+
+        T.move_orthogonalization_center = move
+        T.contract_all_children = cac
+        T.split_node_replace = snr
+        T.replace_tensor = rt
+        cb.pull_tensor_from_different_ttn = pull
+        cb.tensor_qr_decomposition = leaf_qr
+        cb.compute_fixed_size_new_basis_tensor = fixed_basis
+        cb.compute_new_basis_tensor = aug_basis
+        orig_update = self.algo.recursive_update
+
+        def rec_update():
+            me.active = True
+            try:
+                return orig_update()
+            finally:
+                me.active = False
+        self.algo.recursive_update = rec_update
+        return self
+
+    def __exit__(self, *exc):
+        for n, f in self._saved_cls.items():
+            setattr(self._T, n, f)
+        for n, f in self._saved_mod.items():
+            setattr(self.cb, n, f)
+        try:
+            del self.algo.recursive_update
+        except AttributeError:
+            pass
+        return False
+
+    def render(self, inv):
+        """The observed events in the vocabulary of the model's `gauge` answer (identifiers -> model numbers; a
+        basis-change node is named by the node below it)."""
+        out = []
+        for e in self.events:
+            if e[0] == "down":
+                out.append(f"down {inv[e[1]]}>{inv[e[2]]} {int(e[3])}")
+            elif e[0] == "pull":
+                out.append(f"pull {inv[e[1]]}")
+            elif e[0] == "absorb":
+                kids = []
+                for k in e[2]:
+                    if not k.endswith(self.BC) or k[:-len(self.BC)] not in inv:
+                        return None, f"contract_all_children({e[1]}) met the child {k}, not a basis-change node"
+                    kids.append(inv[k[:-len(self.BC)]])
+                out.append(f"absorb {inv[e[1]]} " + ",".join(str(k) for k in sorted(kids)))
+            elif e[0] == "evolve":
+                out.append(f"evolve {inv[e[1]]}")
+            elif e[0] == "basis":
+                _, nid, ida, idb, par, qk = e
+                if idb != nid or ida != nid + self.BC or par not in inv or qk is None:
+                    return None, f"split_node_replace({nid}) with identifiers ({ida}, {idb}), parent {par}, QR {qk}"
+                out.append(f"basis {inv[nid]}>{inv[par]} {int(qk == 'aug')}")
+            elif e[0] == "store":
+                out.append(f"store {inv[e[1]]}")
+        return " ; ".join(out), None
+
+
+def canon_gauge_answer(ans):
+    """The model's `gauge` answer with the children of every `absorb` sorted (the code contracts them in the order of
+    the node's children list, the model lists them in visiting order; the gauge does not depend on it)."""
+    evs = []
+    for tok in ans.split(" | ")[0].split(" ; "):
+        parts = tok.split(" ")
+        if parts[0] == "absorb":
+            kids = sorted(int(k) for k in (parts[2].split(",") if len(parts) > 2 and parts[2] else []))
+            tok = f"absorb {parts[1]} " + ",".join(str(k) for k in kids)
+        evs.append(tok)
+    return " ; ".join(evs)
+
+
+def check_gauge(ctx, case, o, ans):
+    """Stage B for the gauge machine: exact comparison of the event sequences; the model's final record must be
+    `n>parent` for every non-root node, `root>-`, no pending basis-change node, only the start frame."""
+    if ans in ("bad-op", "stuck"):
+        ctx.corr_fail(case, f"gauge machine answered {ans} for {o['gline']}")
+        return
+    if canon_gauge_answer(ans) != o["gimpl"]:
+        ctx.corr_fail(case, f"gauge events: impl=[{o['gimpl']}] model=[{canon_gauge_answer(ans)}]")
+        return
+    parts = ans.split(" | ")
+    want = " ".join(f"{c}>{'-' if p is None else p}" for c, p in o["gparents"])
+    if len(parts) != 4 or parts[1] != want or parts[2] != "pend 0" or parts[3] != f"frames {o['groot']}":
+        ctx.corr_fail(case, f"gauge machine final state [{' | '.join(parts[1:])}], tree says [{want}]")
 
 
 SVD_FIELDS = ("max_bond_dim", "rel_tol", "total_tol", "renorm", "sum_trunc", "sum_renorm")
@@ -549,7 +721,33 @@ def _run_one(ctx, case, rec):
         for c in sorted(nd.children, key=lambda c: min(pos[x] for x in _subtree_ids(ttns, c))):
             walk(c)
     walk(ttns.root_id)
-    return {"line": "C09 order " + " ".join(toks), "impl": " ".join(str(inv[s]) for s in seen)}
+    out = {"line": "C09 order " + " ".join(toks), "impl": " ".join(str(inv[s]) for s in seen)}
+    # the gauge machine: the same run seen as centre moves / pulls / absorptions / QR events
+    gobs = getattr(_observed_order, "gauge", None)
+    if gobs is not None and gobs.events:
+        gimpl, why = gobs.render(inv)
+        if gimpl is None:
+            ctx.oracle_fail(case, f"{kind}: {why}")
+            return out
+        ctx.tally("gauge_events", len(gobs.events))
+        # contract of the QR behind every new basis tensor: an isometry toward the parent (leg 0); in KEEP mode a
+        # zero-padded one (Gram matrix = orthogonal projector)
+        for nid, q, qk in gobs.bases:
+            qm = np.asarray(q).reshape(q.shape[0], -1)
+            g = qm @ qm.conj().T
+            sc = max(1.0, float(np.abs(g).max()))
+            ok = (np.allclose(g, np.eye(g.shape[0]), atol=1e-8 * tf) if qk == "aug" or np.linalg.matrix_rank(qm) == g.shape[0]
+                  else np.allclose(g @ g, g, atol=1e-8 * tf * sc) and np.allclose(g, g.conj().T, atol=1e-8 * tf * sc))
+            if not ok:
+                ctx.oracle_fail(case, f"{kind}: the new basis tensor of {nid} is not an isometry toward its parent")
+                return out
+            ctx.hyp_validated += 1
+        out["gline"] = f"C09 gauge {int(kind == 'fixedbug')} " + " ".join(toks)
+        out["gimpl"] = gimpl
+        out["gparents"] = [(int(t.split(":")[0]), None if t.split(":")[1] == "-" else int(t.split(":")[1]))
+                           for t in toks]
+        out["groot"] = inv[ttns.root_id]
+    return out
 
 
 def _subtree_ids(ttns, nid):
